@@ -1,4 +1,4 @@
-import hashlib, numpy as np
+import hashlib, copy, numpy as np
 from _base import fl, serve
 from persim import PersLandscapeExact, PersLandscapeApprox
 from persim.landscapes import snap_pl, lc_approx, average_approx
@@ -12,7 +12,19 @@ def content(o):
     return {"kind": 2, "hom": int(o.hom_deg), "start": fl(o.start), "stop": fl(o.stop), "n": int(o.num_steps), "vals": vals}
 
 
+def forced(o):
+    """the object itself when its landscape is stored; for a LAZILY built one (compute=False, nothing stored yet) a computed deep copy:
+    what is observed is the function the object stands for, and computing it on demand is not a change of that function"""
+    lazy = (isinstance(o, PersLandscapeExact) and not o.critical_pairs) or (isinstance(o, PersLandscapeApprox) and np.asarray(o.values).size == 0)
+    if not lazy:
+        return o
+    c = copy.deepcopy(o)
+    c.compute_landscape()
+    return c
+
+
 def digest(o):
+    o = forced(o)
     h = hashlib.sha256(repr(content(o)).encode()).digest()
     return int.from_bytes(h[:4], "big") >> 1
 
@@ -31,11 +43,11 @@ def handler(job):
             A = [env[a] for a in ins.get("args", [])]
             c = ins.get("c")
             if op == "new_exact_dgm":
-                outs = [PersLandscapeExact(dgms=[np.array(d, dtype=float).reshape(-1, 2) for d in ins["dgms"]], hom_deg=ins["hom"])]
+                outs = [PersLandscapeExact(dgms=[np.array(d, dtype=float).reshape(-1, 2) for d in ins["dgms"]], hom_deg=ins["hom"], compute=not ins.get("lazy"))]
             elif op == "new_exact_cp":
                 outs = [PersLandscapeExact(critical_pairs=[[list(p) for p in d] for d in ins["cps"]], hom_deg=ins["hom"])]
             elif op == "new_approx_dgm":
-                outs = [PersLandscapeApprox(dgms=[np.array(d, dtype=float).reshape(-1, 2) for d in ins["dgms"]], hom_deg=ins["hom"], start=ins["start"], stop=ins["stop"], num_steps=ins["n"])]
+                outs = [PersLandscapeApprox(dgms=[np.array(d, dtype=float).reshape(-1, 2) for d in ins["dgms"]], hom_deg=ins["hom"], start=ins["start"], stop=ins["stop"], num_steps=ins["n"], compute=not ins.get("lazy"))]
             elif op == "new_approx_vals":
                 outs = [PersLandscapeApprox(values=np.array(ins["vals"], dtype=int if ins.get("int") else float), hom_deg=ins["hom"], start=ins["start"], stop=ins["stop"], num_steps=ins["n"])]
             elif op == "add":
@@ -59,10 +71,10 @@ def handler(job):
             else:
                 raise RuntimeError("bad op")
             for name, o in zip(res, outs):
-                if isinstance(o, PersLandscapeExact):
+                if isinstance(o, PersLandscapeExact) and not ins.get("lazy"):
                     o.compute_landscape()
                 env[name] = o
-                ev["news"][str(name)] = content(o)
+                ev["news"][str(name)] = content(forced(o))
             if len(outs) != len(res):
                 ev["arity"] = len(outs)
         except (ValueError, TypeError) as e:
